@@ -113,6 +113,33 @@ def detect(name, props):
     return out
 
 
+def table():
+    """Markdown table of the seeded changes and what the checks reported (for DESIGN.md)."""
+    rows = ["| seeded change | what it does | needs | checks run -> result |", "|---|---|---|---|"]
+    for name in sorted(os.listdir(SEEDED)):
+        mp = os.path.join(SEEDED, name, "meta.json")
+        if not os.path.exists(mp):
+            continue
+        with open(mp) as f:
+            m = json.load(f)
+        summ = " ".join(str(m.get("summary", "")).split())[:230]
+        needs = " ".join(str(m.get("needs", "")).split())[:200]
+        res = []
+        for p, r in sorted(m.get("detection", {}).items()):
+            v = [x for x in r.get("violations", []) if x.startswith("VIOLATION")]
+            if not v:
+                res.append("%s: not reported" % p)
+            elif all("no-failing-input-found" in x for x in v):
+                first = (r.get("first_lines") or [""])[0].strip()
+                kind = "proof obligation" if "proof obligations" in first or "translator" in first else "correspondence"
+                res.append("%s: VIOLATION (%s broken, no-failing-input-found)" % (p, kind))
+            else:
+                first = (r.get("first_lines") or [""])[0].strip()
+                res.append("%s: VIOLATION with failing input (`%s`)" % (p, first[:110].replace("|", "/")))
+        rows.append("| `%s` | %s | %s | %s |" % (name, summ.replace("|", "/"), needs.replace("|", "/"), "<br>".join(res)))
+    return "\n".join(rows)
+
+
 if __name__ == "__main__":
     if sys.argv[1] == "confirm":
         r = confirm(sys.argv[2], sys.argv[3])
@@ -120,3 +147,5 @@ if __name__ == "__main__":
         sys.exit(0 if r.get("confirmed") else 1)
     elif sys.argv[1] == "detect":
         detect(sys.argv[2], sys.argv[3:])
+    elif sys.argv[1] == "table":
+        print(table())
